@@ -56,6 +56,11 @@ def utils_documents(max_leaves=12, min_leaves=1, wide=True):
         mixed = ["O", [[k, ["A", [["N", float(i)], ["O", [[bytes([0x80 + (37 * i) % 128]) + b"x", ["t"]]]]]]] for i, k in enumerate(
             [b"na\xc3\xafve", b"\xaf", b"\xfe", b"\xaf/", b"~\xfe", b"\xc3\xbe~", b"a\xaf", b"\xafa", b"\xfe0", b"\xe2\x82\xac", b"\xae", b"\xb0", b"\xfd", b"\xff/\xff"])]]
         docs.append(st.sampled_from([allbytes, mixed]))
+    # names that are beginnings of one another, the longer ones first, each holding a container: a token must match a whole name
+    small = gens.shaped_documents(leaves, st.sampled_from([b"x", b"y", b"0", b"cfg"]), max_leaves=3, unique_keys=True)
+    docs.append(st.tuples(st.sampled_from([b"cfg", b"a", b"0", b"1", b"k" * 20, b"item", b"A"]), small, small, small, small, st.integers(0, 3)).map(
+        lambda t: ["O", [[t[0] + b"20", t[1]], [t[0] + b"2", t[2]], [t[0], t[3]], [t[0][:-1] if len(t[0]) > 1 else b"z", t[4]]][t[5]:] +
+                   [[t[0] + b"20", t[1]], [t[0] + b"2", t[2]], [t[0], t[3]], [t[0][:-1] if len(t[0]) > 1 else b"z", t[4]]][:t[5]]]))
     return st.one_of(*docs)
 
 
